@@ -44,6 +44,7 @@ int choose(const std::string& name, int n) {
 }
 long param(const std::string& name, long dflt) { auto it = g_params.find(name); return it == g_params.end() ? dflt : it->second; }
 expr term(const mpz_class& z) { return ctx().int_val(z.get_str().c_str()); }
+expr token_term(const std::string& text) { return ctx().int_val(text.c_str()); }
 expr rterm(const mpz_class& z) { return ctx().real_val(z.get_str().c_str()); }
 expr rterm(const mpq_class& q) { return ctx().real_val(q.get_num().get_str().c_str()) / ctx().real_val(q.get_den().get_str().c_str()); }
 static std::string fname(const std::string& b) { std::ostringstream os; os << "_" << b << (g_fresh++); return os.str(); }
